@@ -73,7 +73,48 @@ func collidingPool(r *Rng, n int) *PathPool {
 	if r.Bool() {
 		p.Paths = append(p.Paths, "math/rand", "crypto/rand")
 	}
+	// paths whose own name looks like a numbered alias of the base name
+	for k := 0; k < r.Intn(4); k++ {
+		p.Paths = append(p.Paths, fmt.Sprintf("n%d.io/%s%d", k, base, 1+r.Intn(4)))
+	}
+	// registration order matters: shuffle
+	for i := len(p.Paths) - 1; i > 0; i-- {
+		j := r.Intn(i + 1)
+		p.Paths[i], p.Paths[j] = p.Paths[j], p.Paths[i]
+	}
 	return p
+}
+
+// genImportHistory: setup (hints, Anon), then rounds of (add references, render): paths that are
+// Anon'd first and referenced in a later round, imports appearing between renders
+func genImportHistory(cx *CheckCtx, i int, cfg FileCfg) *Case {
+	r := cx.R.Fork()
+	pool := sanePool(r, 3+r.Intn(5))
+	if r.Chance(30) {
+		pool = collidingPool(r, 3+r.Intn(4))
+	}
+	c := &Case{ID: fmt.Sprintf("%s-hist-%d-%d", cx.Prop, cx.Seed, i)}
+	c.Ops = append(c.Ops, genFileSetup(r, 0, pool, cfg)...)
+	if r.Chance(70) {
+		c.Ops = append(c.Ops, Op{Kind: OpAnon, F: 0, Str: []string{pick(r, pool.Paths)}})
+	}
+	reg := 0
+	rounds := 2 + r.Intn(3)
+	for k := 0; k < rounds; k++ {
+		sub := &PathPool{Paths: pool.Paths}
+		nrefs := r.Intn(3)
+		var refs []Arg
+		for j := 0; j < nrefs; j++ {
+			q := r.Intn(len(sub.Paths))
+			refs = append(refs, st(Qual{Path: sub.Paths[q], Name: qName(q)}))
+		}
+		if len(refs) > 0 {
+			s := st(kw("Var"), id("_"), op("="), &Grp{Api: "Index"}, kw("Any"), &Grp{Api: "Values", Args: refs})
+			c.Ops = append(c.Ops, addToFile(r, 0, s, &reg)...)
+		}
+		c.Ops = append(c.Ops, Op{Kind: OpRender, F: 0})
+	}
+	return dropInsane(c)
 }
 
 func genImportCase(cx *CheckCtx, i int, cfg FileCfg, sane bool) *Case {
@@ -313,6 +354,11 @@ func registerImportChecks() {
 				c = dropInsane(c)
 			}
 			cs = append(cs, c)
+		}
+		if sane {
+			for i := 0; i < cx.N(quick/6, thorough/6); i++ {
+				cs = append(cs, genImportHistory(cx, i, cfg))
+			}
 		}
 		return cs
 	}
